@@ -389,6 +389,11 @@ def rule_slots(ctx, R):
                 other += 1
         if len(consts) == 1 and incs == 1 and other == 0 and consts[0] >= 2:
             m0 = (consts[0], b.lname(l))
+    # the state has one stack more than the highest private slot: the shared slot of the never-selected stacks exists
+    news_ = [(bi, t) for bi, t in b.calls() if callee_name(t["f"], fb).endswith("OptState::new")]
+    if R.anchor(len(news_) == 1 and m0 is not None, "optstate_new", "construction of the optimised state in optimize()"):
+        sz = roles.of_operand(news_[0][1]["args"][0], news_[0][0])
+        R.check(sz.startswith("PHI((PHI((PHI(K%d|LOOPVAR) Add K1)|K%d) Add K1)|" % (m0[0], m0[0])) or sz.startswith("(PHI((PHI(K%d|LOOPVAR) Add K1)|K%d) Add K1)" % (m0[0], m0[0])), "optimize:slots:size", "the optimised state gets (next free slot + 1) stacks, so the slot shared by never-selected stacks exists: %s" % sz, news_[0][1]["span"]["at"])
     if R.anchor(k_skip is not None and k_ident is not None and m0 is not None, "thresholds", "skip threshold of slot allocation, identity threshold of the rewrite, first private slot (found %s %s %s)" % (k_skip, k_ident, m0)):
         R.check(k_skip[0] == k_ident[0], "optimize:slots:skip_eq_ident", "slot allocation skips exactly the stacks the rewrite leaves unchanged (skip <= %d, identity <= %d)" % (k_skip[0], k_ident[0]), k_skip[1])
         R.check(m0[0] == k_ident[0] + 1, "optimize:slots:first_slot", "the first private slot is the first index above the identity range (%d vs %d)" % (m0[0], k_ident[0] + 1), k_ident[1])
@@ -532,3 +537,6 @@ def rule_levels(ctx, R):
 
 
 RULES.append(("C02.LEVELS", "the level chosen on the command line selects the optimised / unoptimised path and reaches optimize() unchanged (shared with C03.LEVELS)", rule_levels))
+
+
+RULES.append(("C02.INIT", "both state representations start identically: empty, stack 3 selected, no jump source (shared with C01.INIT)", p_c01.rule_init))
